@@ -15,6 +15,7 @@ Small, stable API (nothing here imports paramiko at module import time):
     RefPub.verify(data, sigblob) -> (bool, reason)  strict RFC 4253/5656/8709 signature check
     parse_sig(sigblob)           -> (algname_bytes, sig_bytes) or raises refssh.RefError
 
+    fast_tmpdir(ctx)             -> ctx.tmpdir() on /dev/shm when available (removed by ctx.cleanup())
     exc_bucket(exc, line=False)  -> "ExcClass@file.py:function" (innermost frame inside the tree
                                     under test, i.e. <VERIF_REPO>/paramiko); line=True appends the
                                     source text of that line: "...:function[source text]"
@@ -319,6 +320,16 @@ class RefPub:
         except InvalidSignature:
             return False, "invalid"
         return True, "ok"
+
+
+def fast_tmpdir(ctx):
+    """ctx.tmpdir(), but placed on /dev/shm when that exists: the checks write thousands of tiny key files and
+    the disk behind /tmp stalls for seconds when the machine is busy. Still removed by ctx.cleanup()."""
+    import tempfile
+
+    if ctx._tmp is None and os.path.isdir("/dev/shm") and os.access("/dev/shm", os.W_OK):
+        ctx._tmp = tempfile.mkdtemp(prefix="verif-%s-" % ctx.prop, dir="/dev/shm")
+    return ctx.tmpdir()
 
 
 def curve_order(curve):
